@@ -35,6 +35,15 @@ func genC10(t *rapid.T) c10Case {
 	prof.TopStruct = true
 	prof.MaxDepth = 2
 	for i := 0; i < nt; i++ {
+		if rapid.IntRange(0, 3).Draw(t, "poolheavy") == 0 {
+			// types that lean on per-codec scratch state: struct-keyed maps, interned strings
+			key := vh.StructOf(vh.F("A", 1, vh.T(vh.KInt)), vh.F("B", 2, vh.T(vh.KString)), vh.F("C", 3, vh.T(vh.KUint8)))
+			c.Types = append(c.Types, vh.StructOf(
+				vh.F("M", 1, vh.MapOf(key, vh.T(vh.KString))), vh.FOpt("S", 2, "intern", vh.T(vh.KString)),
+				vh.F("N", 3, vh.MapOf(vh.T(vh.KString), vh.PtrOf(vh.StructOf(vh.F("X", 1, vh.T(vh.KInt)), vh.FOpt("Y", 2, "intern", vh.T(vh.KString)))))),
+				vh.F("L", 4, vh.SliceOf(vh.T(vh.KString)))))
+			continue
+		}
 		c.Types = append(c.Types, vh.GenType(t, prof))
 	}
 	nops := rapid.IntRange(3, 14).Draw(t, "nops")
@@ -52,14 +61,12 @@ func genC10(t *rapid.T) c10Case {
 			op.Val = vh.GenVal(t, c.Types[op.Type], vh.VProfile{Cfg: cfg})
 		case k <= 7:
 			op.Kind = "decodeInto"
-		case k <= 9:
+		case k <= 8:
 			op.Kind = "decodeFresh"
+		case k == 9:
+			op.Kind = "decodeCorrupt"
 		case k == 10:
-			if rapid.Bool().Draw(t, "corrupt") {
-				op.Kind = "decodeCorrupt"
-			} else {
-				op.Kind = "scribble"
-			}
+			op.Kind = "scribble"
 		default:
 			op.Kind = "remarshal"
 		}
